@@ -44,14 +44,14 @@ func init() {
 	childModes["c16child"] = c16Child
 	register(&Suite{
 		Name: "c16",
-		Rule: "2-6 goroutines run scripts (ins/del/get/iter/root/GetChanges/GetChangeCount/GetDeletes/SaveChanges/missing-node reads, random Gosched/sleeps) over one shared trie on mem/level/pndb stores; scenarios: lookups into nodes removed from the store, disjoint key sets, overlapping key sets, readers vs writer vs saver; child process under the race detector (exit 66 = DATA RACE); porcupine against the map specification; final root/content and saved change sets checked; non-trivial = >= 2 goroutines and (a successful concurrent update or >= 2 absent-node hits)",
+		Rule: "2-6 goroutines run scripts (ins/del/get/iter/root/GetChanges/GetChangeCount/GetDeletes/SaveChanges/missing-node reads, random Gosched/sleeps) over one shared trie on mem/level/pndb stores; scenarios: lookups into nodes removed from the store, disjoint key sets, overlapping key sets, readers vs writer vs saver, snapshot stress (writers vs back-to-back GetChanges, each returned (root, changes, deletes, startRoot) replayed over the setup store and required to be one complete state); child process under the race detector (exit 66 = DATA RACE); porcupine against the map specification; final root/content and saved change sets checked; non-trivial = >= 2 goroutines and (a successful concurrent update or >= 2 absent-node hits)",
 		Gen:  genC16,
 		Run:  runC16,
 		DefaultN: func(tier string) int {
 			if tier == "thorough" {
-				return 40000
+				return 30000
 			}
-			return 1200
+			return 900
 		},
 		CaseTimeout: 60 * time.Second,
 	})
@@ -168,6 +168,7 @@ func c16Child() {
 				if err := db.DeleteNode(k); err != nil {
 					res[i].out = errKind(err)
 				} else {
+					c16Snap.removed = true
 					res[i].out = "ok " + hx(k)
 				}
 			}
@@ -192,6 +193,10 @@ func c16Child() {
 		return base.PutNode(key, node)
 	})
 
+	c16Snap.base, c16Snap.version, c16Snap.root0 = base, version, append(util.Key(nil), mpt.GetRoot()...)
+	if !fresh {
+		c16Snap.root0 = nil // the builder trie's collector started from the empty trie
+	}
 	threads := map[int][]int{}
 	var tids []int
 	for i := firstT; i < len(ops); i++ {
@@ -216,8 +221,12 @@ func c16Child() {
 			for _, i := range idxs {
 				f := strings.Fields(ops[i])[2:]
 				res[i].call = now()
-				res[i].out = c16Exec(mpt, db2, f)
+				var post func() string
+				res[i].out = c16Exec(mpt, db2, f, &post)
 				res[i].ret = now()
+				if post != nil { // checks on the returned values, outside the stamped interval
+					res[i].out += " " + guard(post)
+				}
 			}
 		}(threads[tid])
 	}
@@ -260,7 +269,53 @@ func c16Child() {
 	w.Flush()
 }
 
-func c16Exec(mpt *util.MerklePatriciaTrie, db2 util.NodeDB, f []string) string {
+// c16Snap: what the child needs to judge a change set returned by GetChanges (set once before the threads start).
+var c16Snap struct {
+	base    util.NodeDB // the store as it was after setup
+	version int64
+	root0   util.Key // root the shared trie (and its change collector) started from
+	removed bool     // nodes were removed from the store: snapshots cannot be complete
+}
+
+// c16SnapCheck judges (root, changes, deletes, startRoot) as ONE snapshot: the changes replayed into a fresh store
+// layered over the setup store must make the trie at the RETURNED root complete (a root of one state paired with
+// the change set of another leaves nodes missing), no node of `deletes` may be live under that root, startRoot
+// must be the root the collector started from. Prints the content read back, which the parent compares with the
+// specification state at the operation's linearization point.
+func c16SnapCheck(root util.Key, changes []*util.NodeChange, deletes []util.Node, startRoot util.Key) string {
+	if c16Snap.removed {
+		return "snap=skipped"
+	}
+	if !bytes.Equal(startRoot, c16Snap.root0) {
+		return "snap=startroot(" + rootStr(startRoot) + ")"
+	}
+	tmp := util.NewMemoryNodeDB()
+	for _, c := range changes {
+		if err := tmp.PutNode(c.New.GetHashBytes(), c.New); err != nil {
+			return "snap=put(" + errKind(err) + ")"
+		}
+	}
+	if len(root) == 0 {
+		return "snap=ok c="
+	}
+	lvl := util.NewLevelNodeDB(tmp, c16Snap.base, false)
+	ps, err := iterPairs(newMPT(lvl, c16Snap.version, root))
+	if err != nil {
+		return "snap=incomplete(" + errKind(err) + ")"
+	}
+	live := map[string]bool{string(root): true}
+	for _, k := range reachableKeys(lvl, root) {
+		live[string(k)] = true
+	}
+	for _, d := range deletes {
+		if live[string(d.GetHashBytes())] {
+			return "snap=deadlive(" + d.GetHash() + ")"
+		}
+	}
+	return "snap=ok c=" + fmtPairs(ps)
+}
+
+func c16Exec(mpt *util.MerklePatriciaTrie, db2 util.NodeDB, f []string, post *func() string) string {
 	return guard(func() string {
 		switch f[0] {
 		case "ins":
@@ -290,11 +345,13 @@ func c16Exec(mpt *util.MerklePatriciaTrie, db2 util.NodeDB, f []string) string {
 		case "root":
 			return "ok " + rootStr(mpt.GetRoot())
 		case "changes":
-			root, changes, deletes, _ := mpt.GetChanges()
+			root, changes, deletes, startRoot := mpt.GetChanges()
+			*post = func() string { return c16SnapCheck(root, changes, deletes, startRoot) }
 			return fmt.Sprintf("ok %s n=%d d=%d", rootStr(root), len(changes), len(deletes))
 		case "changesread":
 			// GetChanges, then read the returned records as a caller would (fixed defect 4d3d8c8)
-			root, changes, deletes, _ := mpt.GetChanges()
+			root, changes, deletes, startRoot := mpt.GetChanges()
+			*post = func() string { return c16SnapCheck(root, changes, deletes, startRoot) }
 			h := 0
 			for _, c := range changes {
 				h += len(c.New.GetHash())
@@ -433,7 +490,16 @@ func c16Model(init string, version int64, removed bool) porcupine.Model {
 				return out == "ok "+canonRootOf(m, version), st
 			case "changes":
 				f := strings.Fields(out)
-				return len(f) >= 2 && f[0] == "ok" && f[1] == canonRootOf(m, version), st
+				if len(f) < 2 || f[0] != "ok" || f[1] != canonRootOf(m, version) {
+					return false, st
+				}
+				for i, x := range f {
+					// content read back from the returned change set at the returned root = the state here
+					if x == "snap=ok" && i+1 < len(f) && strings.HasPrefix(f[i+1], "c=") {
+						return f[i+1][2:] == st, st
+					}
+				}
+				return true, st
 			}
 			return false, st
 		},
@@ -720,6 +786,12 @@ func runC16(ops []string) (res CaseResult) {
 		case "get":
 			in = linIn{"get", pathOf(f[3]), ""}
 		case "iter", "root", "changes", "changesread":
+			for _, x := range strings.Fields(out) {
+				if strings.HasPrefix(x, "snap=") && x != "snap=ok" && x != "snap=skipped" {
+					tags["torn-snapshot"] = true
+					fail("op %d (%s): GetChanges returned an inconsistent snapshot (%s): root %s with this change set is not one state of the trie", i, op, x[5:], strings.Fields(out)[1])
+				}
+			}
 			k := f[2]
 			if k == "changesread" {
 				k = "changes"
@@ -873,6 +945,16 @@ func genC16(r *rand.Rand, tier string, idx int) []string {
 		maxThreads, maxOps = 6, 14
 	}
 	nThreads := 2 + r.Intn(maxThreads-1)
+	if idx%8 == 7 {
+		// snapshot stress: writers update continuously while snapshotters call GetChanges back to back - a
+		// GetChanges that is not ONE critical section returns the root of one state with the change set of another
+		scenario = 4
+		nThreads = 4 + r.Intn(2)
+		maxOps = 30
+		if tier == "thorough" {
+			maxOps = 60
+		}
+	}
 	var pool []string
 	nPre := 3 + r.Intn(8)
 	if scenario == 1 {
@@ -936,10 +1018,22 @@ func genC16(r *rand.Rand, tier string, idx int) []string {
 		if scenario == 3 {
 			role = []string{"writer", "reader", "saver", "reader", "mixed", "saver"}[tid%6]
 		}
+		if scenario == 4 {
+			role = []string{"writer", "snapshotter", "writer", "snapshotter", "snapshotter"}[tid%5]
+			n = maxOps/2 + r.Intn(maxOps/2)
+		}
 		for k := 0; k < n; k++ {
 			x := r.Intn(100)
 			var line string
 			switch role {
+			case "snapshotter":
+				if x < 60 {
+					line = "changes"
+				} else if x < 90 {
+					line = "changesread"
+				} else {
+					line = "root"
+				}
 			case "reader":
 				switch {
 				case x < 50:
